@@ -29,14 +29,19 @@ def one(name, tier, workers):
 def main():
     ap = argparse.ArgumentParser(); ap.add_argument('ids', nargs='*'); ap.add_argument('--tier', default='quick')
     ap.add_argument('--jobs', type=int, default=2); ap.add_argument('--workers', type=int, default=8)
+    ap.add_argument('--resume', action='store_true', help='continue from seeded/DETECTION.json.partial')
     a = ap.parse_args()
     names = a.ids or sorted(os.path.basename(os.path.dirname(p)) for p in glob.glob('/verif/seeded/*/meta.json'))
     out = {}
     if os.path.exists('/verif/seeded/DETECTION.json') and a.ids:
         out = json.load(open('/verif/seeded/DETECTION.json'))
+    if a.resume and os.path.exists('/verif/seeded/DETECTION.json.partial'):
+        out = json.load(open('/verif/seeded/DETECTION.json.partial'))
+        names = [n for n in names if n not in out]
     with ThreadPoolExecutor(a.jobs) as ex:
         for name, res in ex.map(lambda n: one(n, a.tier, a.workers), names):
             out[name] = res
+            json.dump(out, open('/verif/seeded/DETECTION.json.partial', 'w'), indent=1, sort_keys=True)     # survives an interrupted run
             print(name, res.get('exit'), res.get('violation_lines'), res.get('first_kind', res.get('error', ''))[:120], flush=True)
     json.dump(out, open('/verif/seeded/DETECTION.json', 'w'), indent=1, sort_keys=True)
     missed = [n for n, v in out.items() if v.get('exit') != 1]
